@@ -67,6 +67,19 @@ Theorem C01_square_solves_system :
 Proof. exact: square_solves_system. Qed.
 Print Assumptions C01_square_solves_system.
 
+(* frame-by-frame simulation (simulate(..., force_split_frames=True): a new frame at every unanticipated shock, each frame a
+   flat simulation to the end of the base span with later unanticipated shocks pruned, only its own periods written back)
+   returns exactly the flat path, so Theorem 2 and all that follows hold for it as well *)
+Theorem C01_split_frames_equal_flat :
+  forall (F : fieldType) (nb nf ne : nat) (T : 'M[F]_nb) (P : 'M[F]_(nb, ne)) (X : 'M[F]_(nb, nf)) (J : 'M[F]_nf)
+         (Ru : 'M[F]_(nf, ne)) (K : 'cV[F]_nb) (deviation : bool) (true_init : nat -> bool) (init : 'cV[F]_nb)
+         (us vs : seq 'cV[F]_ne),
+  size us = size vs ->
+  @simulate_split (MCOps F) nb nf ne deviation true_init T P K X J Ru init us vs
+  = @simulate_flat (MCOps F) nb nf ne deviation true_init T P K X J Ru init us vs.
+Proof. exact: split_frames_equal_flat. Qed.
+Print Assumptions C01_split_frames_equal_flat.
+
 (* 3. Anticipated shocks: the impact the code adds in column t (Rx[0] v[t] + Rx[1] v[t+1] + ..., Rx[k] = -X J^(k-1) Ru,
       truncated at the last non-zero anticipated shock) is  P v[t] - X a[t];  and a[t-1] = sum_k J^k Ru v[t+k]
       (forward expansion, by induction over the horizon) *)
